@@ -228,17 +228,17 @@ pub struct CheckSpec {
 pub fn check_spec(id: &str) -> CheckSpec {
     let rule_pipeline = "cases = seeded (block, pre-state, config, fault plan, schedule) tuples run through the real pipeline under the simulator; a case is non-trivial if it had a re-execution, validation conflict, erroring attempt, sequential fallback, fired fault or did not complete; distinct = distinct abstract behaviour (per-tx #incarnations and #validations, abort kinds, fallback start, #commits) among non-trivial cases";
     match id {
-        "C01" => CheckSpec { id: "C01", runs_quick: 12_000, runs_thorough: 400_000, level: "exploration", rule: rule_pipeline },
-        "C02" => CheckSpec { id: "C02", runs_quick: 12_000, runs_thorough: 400_000, level: "exploration", rule: rule_pipeline },
-        "C03" => CheckSpec { id: "C03", runs_quick: 12_000, runs_thorough: 400_000, level: "exploration", rule: rule_pipeline },
-        "C04" => CheckSpec { id: "C04", runs_quick: 10_000, runs_thorough: 300_000, level: "fault_enumeration", rule: rule_pipeline },
-        "C05" => CheckSpec { id: "C05", runs_quick: 12_000, runs_thorough: 400_000, level: "exploration", rule: rule_pipeline },
-        "C07" => CheckSpec { id: "C07", runs_quick: 10_000, runs_thorough: 300_000, level: "exploration", rule: rule_pipeline },
-        "C08" => CheckSpec { id: "C08", runs_quick: 10_000, runs_thorough: 300_000, level: "exploration", rule: rule_pipeline },
-        "C09" => CheckSpec { id: "C09", runs_quick: 10_000, runs_thorough: 300_000, level: "exploration", rule: rule_pipeline },
-        "C10" => CheckSpec { id: "C10", runs_quick: 10_000, runs_thorough: 300_000, level: "exploration", rule: rule_pipeline },
-        "C11" => CheckSpec { id: "C11", runs_quick: 10_000, runs_thorough: 300_000, level: "exploration", rule: rule_pipeline },
-        "C13" => CheckSpec { id: "C13", runs_quick: 10_000, runs_thorough: 300_000, level: "exploration", rule: rule_pipeline },
+        "C01" => CheckSpec { id: "C01", runs_quick: 150_000, runs_thorough: 6_000_000, level: "exploration", rule: rule_pipeline },
+        "C02" => CheckSpec { id: "C02", runs_quick: 150_000, runs_thorough: 6_000_000, level: "exploration", rule: rule_pipeline },
+        "C03" => CheckSpec { id: "C03", runs_quick: 150_000, runs_thorough: 6_000_000, level: "exploration", rule: rule_pipeline },
+        "C04" => CheckSpec { id: "C04", runs_quick: 120_000, runs_thorough: 5_000_000, level: "fault_enumeration", rule: rule_pipeline },
+        "C05" => CheckSpec { id: "C05", runs_quick: 150_000, runs_thorough: 6_000_000, level: "exploration", rule: rule_pipeline },
+        "C07" => CheckSpec { id: "C07", runs_quick: 120_000, runs_thorough: 5_000_000, level: "exploration", rule: rule_pipeline },
+        "C08" => CheckSpec { id: "C08", runs_quick: 120_000, runs_thorough: 5_000_000, level: "exploration", rule: rule_pipeline },
+        "C09" => CheckSpec { id: "C09", runs_quick: 120_000, runs_thorough: 5_000_000, level: "exploration", rule: rule_pipeline },
+        "C10" => CheckSpec { id: "C10", runs_quick: 120_000, runs_thorough: 5_000_000, level: "exploration", rule: rule_pipeline },
+        "C11" => CheckSpec { id: "C11", runs_quick: 120_000, runs_thorough: 5_000_000, level: "exploration", rule: rule_pipeline },
+        "C13" => CheckSpec { id: "C13", runs_quick: 120_000, runs_thorough: 5_000_000, level: "exploration", rule: rule_pipeline },
         other => panic!("unknown check {other}"),
     }
 }
